@@ -15,6 +15,7 @@ package eni
 //@   ensures old(ip.podID) != podID ==> ip.podID == old(ip.podID)
 //@   ensures forall q *IP :: q != ip ==> q.podID == old(q.podID)
 
+//@ for C01 C04
 //@ # the lookup never returns an address held by another pod: the pod's own address, else a valid unowned one
 //@ func Set.PeekAvailable
 //@   modifies nothing
@@ -23,6 +24,7 @@ package eni
 //@   ensures podID != "" && (exists k netip.Addr :: k in s && s[k] != nil && s[k].podID == podID) ==> result != nil && result.podID == podID
 //@   loop 1 invariant forall k netip.Addr :: seen(k) ==> s[k].podID != podID
 
+//@ for C01
 //@ func Local.commit
 //@   requires l != nil && l.eni != nil
 //@   requires ipv4 == nil || ipv4.podID == "" || ipv4.podID == podID
